@@ -740,10 +740,10 @@ func blockingSendKey(fn *ssa.Function, ch ssa.Value) string {
 	owner := "func"
 	root := rootFn(fn)
 	if n := recvNamed(root); n != nil {
-		owner = n.Obj().Name()
+		owner = canonTypeName(n)
 	} else if res := root.Signature.Results(); res.Len() > 0 {
 		if n := namedOf(res.At(0).Type()); n != nil {
-			owner = n.Obj().Name() // a constructor
+			owner = canonTypeName(n) // a constructor
 		}
 	}
 	local := ""
